@@ -536,10 +536,12 @@ def inventory_rules(run, db):
 
 def cache_rules(run, db):
     """Adjoint bases that are memoised must be keyed by everything that determines the forward bases they are formed from."""
+    # the executors' memos are decided by interpretation (DEP domain): whatever a companion stores or reads is determined by its key
+    from . import c01
+    from .c02 import Proxy
+    run.group(c01.cache_rules, Proxy(run, {'C01.cache': 'C06.cache'}), db)
     from .purity import memo_completeness
     res = memo_completeness(db, ['prysm.fttools', 'prysm.propagation', 'prysm.x.optym.operators', 'prysm.x.dm'])
-    if not res:
-        raise AnalysisError('no dict memo found in the transform executors')
     for fi, st, memo, missing in res:
         run.check(not missing, 'C06.cache', fi.qual, 'memo %s' % memo, 'memo %s is keyed by every input its fill block reads' % memo,
                   'the memo %s is filled from %s, which its key does not contain: a companion called with a geometry that differs only there re-uses the adjoint bases of the EARLIER geometry '
